@@ -417,6 +417,17 @@ zix_btree_is_full(const ZixBTreeNode* const n)
 static ZixStatus
 zix_btree_grow_up(ZixBTree* const t)
 {
+  // Refuse to grow beyond the height that iterators can represent
+  unsigned height = 1U;
+  for (const ZixBTreeNode* n = t->root; !n->is_leaf;
+       n                     = zix_btree_child(n, 0U)) {
+    ++height;
+  }
+
+  if (height >= ZIX_BTREE_MAX_HEIGHT) {
+    return ZIX_STATUS_OVERFLOW;
+  }
+
   ZixBTreeNode* const new_root = zix_btree_node_new(t->allocator, false);
   if (!new_root) {
     return ZIX_STATUS_NO_MEM;
